@@ -639,23 +639,11 @@ def coq_op(op):
     return f"{'OSetIn' if op[0] == 'in' else 'OSetOut'} {coq_path(op[1])} {cn(op[2])} {cz(op[3])}"
 
 
-def inherited_labels(case):
-    """known finding C09-scraped-labels-inherited: the labels the derived class ends up with, when they
-    are not its own (None = own labels)"""
-    base = case.get("base")
-    if base is None or not (case["d"].get("scrape") and base["d"].get("scrape") and base["first"] == "base"):
-        return None
-    mine, theirs = [r[0] for r in case["d"]["rets"]], [r[0] for r in base["d"]["rets"]]
-    return None if (mine == theirs or not theirs) else theirs
-
-
 def model_term(case):
+    # the interface is that of the class's OWN definition: a derived macro class that declares no labels
+    # scrapes its own return statement whichever class was used first (declared labels are inherited as an
+    # ordinary class attribute; the generator never relies on that), so the parent plays no role in the model
     d = case["d"]
-    inh = inherited_labels(case)
-    if inh is not None:        # faithful to the code: the parent's scraped labels are found on the class first
-        if len(inh) != len(d["rets"]):
-            return 'OL [OS "ValueError"]'
-        d = dict(d, rets=[[lab, r[1]] for lab, r in zip(inh, d["rets"])])
     return f"oscenario {coq_def(d)} {cl(coq_op(o) for o in case['ops'])}"
 
 
@@ -1116,7 +1104,6 @@ def oracle(case, obs):
     return f"{sig}: {detail}" + (f" (+{len(bad) - 1} more)" if len(bad) > 1 else "")
 
 
-K4 = "C09-scraped-labels-inherited"
 K1 = "S14-child-input-not-mirrored-up"
 K2 = "S14-macro-output-not-mirrored-down"
 K3 = "C09-duplicate-return-replaces-link"
@@ -1134,10 +1121,6 @@ def explain(case, failure):
         return any(o[0] == "in" and o[1] != [] and (json.dumps(o[1]), o[2]) in recv and _startswith(o[1], prefix)
                    for o in before)
 
-    if sig in ("refused", "interface") and inherited_labels(case) is not None:
-        return K4
-    if inherited_labels(case) is not None and sig in ("sync-out", "unlinked", "run-differs", "run-failed"):
-        return K4          # consequences of running under the parent's labels
     if sig == "sync-in":
         _, path, idx = key
         return K1 if recv_in_poke(path) else None
